@@ -352,6 +352,16 @@ package contractcourt
 //@   site lookup BreachedHtlcTweaks: assert arg(key) == ret(newResolverID)
 //@   site lookup BreachedSecondLevelHltcTweaks: assert arg(key) == ret(newResolverID)
 //@   site call newResolverID: assert arg(0) == ret(OutPoint)
+//@   // every restored HTLC output signs with ITS tweak: the slice stored in its sign descriptor views storage of its own
+//@   site store SignDescriptor.TapTweak: assert iterfresh(value)
+//@
+//@ // ---- the chain watcher judges a spend with the revocation store as it is on disk NOW: it is re-read into the watcher's channel
+//@ // ---- object before the chain set is handed out (the watcher may hold its own copy of the channel state)
+//@ func newChainSet
+//@   props C04 C06
+//@   loop * havoc
+//@   site alloc chainSet: assert called(RemoteRevocationStore) && retn(RemoteRevocationStore, 1) == nil
+//@   site call RemoteRevocationStore: assert arg(0) == chanState
 //@
 //@ // ---- C13: resolver checkpoints say "handed over" only after the hand-over happened, and a resumed
 //@ // ---- resolver watches the outpoint that exists on chain
